@@ -39,4 +39,13 @@ def joinWith (sep : Str) : List Str → Str
   | [x] => x
   | x :: xs => x ++ sep ++ joinWith sep xs
 
+/-- lexicographic comparison by code point (Python `str <`, SQLite BINARY) -/
+def strLt : Str → Str → Bool
+  | [], [] => false
+  | [], _ :: _ => true
+  | _ :: _, [] => false
+  | a :: as, b :: bs => a.toNat < b.toNat || (a == b && strLt as bs)
+
+def strLe (a b : Str) : Bool := !strLt b a
+
 end ZorgVerif
